@@ -937,7 +937,7 @@ def perkey_history(seed):
     else:
         f = f"map 2 [] l1.0 ; map 1 [] l0.0 o{shared} ; ret l0.1"
     cut = rng.choice(["-", "-", "-", "eq", "never", "fn:0"])
-    op = rng.choice(["permapi", "permapiom"])
+    op = rng.choice(["permapi", "permapiom", "perfilter", "perfilterom"])
     out = node(f"{op} {inp} {cut} {{ [] {f} }}")
     down = out
     if rng.random() < 0.3:
